@@ -125,3 +125,13 @@ Theorem C02b_checker_sound : forall indexed defs ps claimed banks out,
 Proof. exact cert_check2_sound. Qed.
 
 (* ---------------- for Props/C09.v ---------------- *)
+
+(* after the repair F77: a successful result holds no failed assertion in a constant, and every constant is its
+   expression evaluated under the final state at the place the cursor walk reaches it *)
+Theorem C02b_constant_not_failed : forall m banks defs mb ns1 s d0 e ctx ns2 st,
+  labels_ok2 (ns1 ++ (XConst s d0 e, ctx) :: ns2) st -> Certified2 m banks defs mb (ns1 ++ (XConst s d0 e, ctx) :: ns2) st ->
+  nth s (s_sym st) VUnknown <> VFailed /\
+  exists c0 p0 b pos loc,
+    walk banks mb ns1 st (Cursor.init_cursor banks) None = Ok (c0, p0) /\ visit banks mb (XConst s d0 e, ctx) c0 p0 = Ok (b, pos) /\
+    eval code_ops (pvar2 m st ctx (Cursor.eval_address mb b pos false) false) e [] = EOk (nth s (s_sym st) VUnknown, loc).
+Proof. exact certified2_const_not_failed. Qed.
